@@ -105,7 +105,8 @@ def run_tlc(module, cfg, env=None, workers=1, timeout=3600, heap="4g", extra=Non
         e["OUT_FILE"] = outfile
         if env:
             e.update({k: str(v) for k, v in env.items()})
-        cmd = ["java", "-XX:+UseParallelGC", "-Xmx" + heap, "-cp", TLA_CP, "tlc2.TLC",
+        # (java.io.tmpdir inside the run's own scratch directory: TLC leaves an empty tlc-<n> directory per invocation there)
+        cmd = ["java", "-XX:+UseParallelGC", "-Xmx" + heap, "-Djava.io.tmpdir=" + tmp, "-cp", TLA_CP, "tlc2.TLC",
                "-workers", str(workers), "-metadir", os.path.join(tmp, "meta"),
                "-noGenerateSpecTE", "-config", cfgpath]
         if extra:
